@@ -309,6 +309,11 @@ def noop_empty_writes(oplist, leaf, consumer):
             out.append(i)
         elif ws and not any(v in ('INSERT', 'UPDATE') for v, t in ws[-1]):
             out.append(i)
+        elif ws and not any(v != 'SELECT' and (t in ('allocations', 'resource_providers', 'inventories') or
+                                               (v == 'INSERT' and t == 'consumers')) for v, t in ws[-1]):
+            # it touched neither allocations nor providers: at most an UPDATE of the attributes of a consumer record that
+            # is no longer there (the request named another project / user / type)
+            out.append(i)
     return out
 
 
